@@ -231,6 +231,185 @@ Qed.
 Print Assumptions SRC_C14_ablation_plain.
 
 
+(* ---------------- ablation with displaced copies ---------------- *)
+(* the figure made of a first vertex list and further ones (what Path/Marker.ablation builds from one list and a shift) *)
+Definition ablation_gen (cm : mcfg) (first_vs : list p3) (others : list (list p3)) : list lpt :=
+  match first_vs with
+  | [] => []
+  | v0 :: _ =>
+      let first := mk v0 (m_speed_pos cm) false in
+      let a1 := mk v0 (m_speed_pos cm) true in
+      let t1 := trace cm a1 first_vs v0 in
+      let rest := copies cm (last t1 a1) others in
+      [first; a1] ++ t1 ++ rest ++ end_blk first (last (t1 ++ rest) a1) (m_speed_closed cm)
+  end.
+
+Lemma ablation_is_gen : forall cm v0 vs s,
+  ablation cm (v0 :: vs) (Some s) =
+  ablation_gen cm (map (shift3 0 0) (v0 :: vs))
+    [map (shift3 s 0) (v0 :: vs); map (shift3 (- s) 0) (v0 :: vs); map (shift3 0 s) (v0 :: vs); map (shift3 0 (- s)) (v0 :: vs)].
+Proof. intros. reflexivity. Qed.
+
+(* a loop whose body appends a block, for the elements that satisfy P *)
+Lemma for_each_blocks_P : forall {A} (P : A -> Prop) (l : list A) (body : A -> unit -> MM unit) (blk : A -> lpt -> list lpt) p sg,
+  p <> [] -> Forall P l ->
+  (forall a q, P a -> q <> [] -> body a tt (st_of q sg) = (Ret tt, st_of (q ++ blk a (plast q)) sg)) ->
+  for_each l tt body (st_of p sg) = (Ret tt, st_of (fold_left (fun q a => q ++ blk a (plast q)) l p) sg).
+Proof.
+  intros A P l body blk. induction l as [|a l IH]; intros p sg Hp HP Hbody; [reflexivity|].
+  inversion HP as [|? ? Ha Hl]; subst. cbn [for_each fold_left]. unfold bind. rewrite (Hbody a p Ha Hp). apply IH; [|exact Hl|exact Hbody].
+  intros E. apply app_eq_nil in E. destruct E as [E _]. congruence.
+Qed.
+
+Lemma copy_blk_cons : forall cm last v0 vs, exists x m, copy_blk cm last (v0 :: vs) = x :: m.
+Proof. intros. cbn [copy_blk]. eauto. Qed.
+
+Lemma copies_fold : forall cm others p, p <> [] -> Forall (fun vs : list p3 => vs <> []) others ->
+  fold_left (fun q vs => q ++ copy_blk cm (plast q) vs) others p = p ++ copies cm (plast p) others.
+Proof.
+  intros cm others. induction others as [|vs others IH]; intros p Hp HF; [now rewrite app_nil_r|].
+  inversion HF as [|? ? Hv Hr]; subst. destruct vs as [|v0 vs]; [congruence|]. cbn [fold_left copies].
+  destruct (copy_blk_cons cm (plast p) v0 vs) as [x [m E]].
+  rewrite IH; [|rewrite E; intros F; apply app_eq_nil in F; destruct F; discriminate|exact Hr].
+  rewrite <- app_assoc. f_equal. f_equal. f_equal. rewrite E, plast_app. apply last_cons_indep.
+Qed.
+
+(* one displaced copy: closed move to its first vertex, open duplicate, the vertices, open and closed duplicate of the last one *)
+Lemma copy_body : forall c (v0 : p3) (vs : list p3) q, q <> [] ->
+  (first__4 <- (match map row_of (v0 :: vs) with [] => raise EIndex | x0__ :: _ => ret x0__ end) ;;
+   lp_linear c (as_optlist first__4) "ABS" 0 None ;;;
+   first__5 <- (match map row_of (v0 :: vs) with [] => raise EIndex | x0__ :: _ => ret x0__ end) ;;
+   lp_linear c (as_optlist first__5) "ABS" 1 None ;;;
+   bind (for_each (map row_of (v0 :: vs)) tt (fun p _ => lp_linear c (as_optlist p) "ABS" 1 None ;;; ret tt))
+     (fun _ => last__6 <- (match map row_of (v0 :: vs) with [] => raise EIndex | x0__ :: r__ => ret (List.last r__ x0__) end) ;;
+               lp_linear c (as_optlist last__6) "ABS" 1 None ;;;
+               last__7 <- (match map row_of (v0 :: vs) with [] => raise EIndex | x0__ :: r__ => ret (List.last r__ x0__) end) ;;
+               lp_linear c (as_optlist last__7) "ABS" 0 None ;;; ret tt)) (st_of q 1)
+  = (Ret tt, st_of (q ++ copy_blk (mcfg_of c) (plast q) (v0 :: vs)) 1).
+Proof.
+  intros c v0 vs q Hq.
+  assert (Ev : forall (v : p3) sh p, p <> [] -> lp_linear c (as_optlist (row_of v)) "ABS" sh None (st_of p 1)
+                 = (Ret tt, st_of (p ++ [lin (plast p) (abs3 v) true (negb (Z.eqb sh 0)) (m_speed (mcfg_of c))]) 1)).
+  { intros [[x y] z] sh p Hp. cbn [row_of as_optlist aol_val map]. now rewrite (linear_ok c p 1 _ _ _ "ABS" true sh None Hp eq_refl). }
+  assert (N1 : forall (l : list lpt) x, l ++ [x] <> []) by (intros l x E; apply app_eq_nil in E; destruct E; discriminate).
+  cbn [map]. unfold bind at 1. cbn [ret]. unfold bind at 1. rewrite (Ev v0 0%Z q Hq).
+  unfold bind at 1. cbn [ret]. unfold bind at 1. rewrite (Ev v0 1%Z _ (N1 _ _)).
+  set (a := lin (plast q) (abs3 v0) true (negb (0 =? 0)%Z) (m_speed (mcfg_of c))).
+  rewrite plast_app. cbn [last]. set (b := lin a (abs3 v0) true (negb (1 =? 0)%Z) (m_speed (mcfg_of c))).
+  change (row_of v0 :: map row_of vs) with (map row_of (v0 :: vs)).
+  unfold bind at 1. rewrite for_each_map.
+  rewrite (for_each_blocks _ _ (fun v last => [lin last (abs3 v) true true (m_speed (mcfg_of c))]));
+    [| apply N1 | intros x E; apply (f_equal (fun f => f dpt)) in E; discriminate | intros x p Hp; apply visit_body; exact Hp].
+  rewrite visit_fold by apply N1.
+  assert (Eb : plast ((q ++ [a]) ++ [b]) = b) by (rewrite plast_app; reflexivity). rewrite Eb.
+  set (V := visit (mcfg_of c) b (v0 :: vs)).
+  assert (HVne : V <> []) by (unfold V; cbn [visit]; discriminate).
+  change (row_of v0) with (row_of v0). rewrite last_map_row. set (vl := last vs v0).
+  unfold bind at 1. cbn [ret]. unfold bind at 1.
+  rewrite (Ev vl 1%Z) by (intros E; apply app_eq_nil in E; destruct E as [_ E]; exact (HVne E)).
+  unfold bind at 1. cbn [ret]. unfold bind at 1. rewrite (Ev vl 0%Z _ (N1 _ _)). unfold bind, ret.
+  f_equal. f_equal. cbn [copy_blk]. fold a. fold b. unfold trace. fold V.
+  replace (List.last (v0 :: vs) v0) with vl by (unfold vl; destruct vs; reflexivity).
+  assert (EL : plast (((q ++ [a]) ++ [b]) ++ V) = last V b).
+  { destruct V as [|x m] eqn:EV; [congruence|]. rewrite plast_app. apply last_cons_indep. }
+  rewrite EL. rewrite plast_app. cbn [last]. rewrite <- !app_assoc. reflexivity.
+Qed.
+
+Lemma last_cons_same : forall {X} (l : list X) p, last (p :: l) p = last l p.
+Proof. intros X [|a l] p; reflexivity. Qed.
+
+Lemma trace_shape : forall (a b : lpt) (V : list lpt) (F G : lpt -> lpt), V <> [] ->
+  a :: b :: ((V ++ [F (plast (a :: b :: V))]) ++ [G (plast (a :: b :: V ++ [F (plast (a :: b :: V))]))])
+  = a :: b :: (V ++ [F (last V b); G (F (last V b))]).
+Proof.
+  intros a b V F G HV. rewrite (plast_started a b V HV). set (L := last V b).
+  assert (E1 : plast (a :: b :: V ++ [F L]) = F L) by (change (a :: b :: V ++ [F L]) with ((a :: b :: V) ++ [F L]); apply plast_app).
+  rewrite E1. now rewrite <- app_assoc.
+Qed.
+
+Lemma gen_shape : forall (a b : lpt) (T R : list lpt) sc, T <> [] ->
+  ((a :: b :: T) ++ R) ++ end_blk (pfirst ((a :: b :: T) ++ R)) (plast ((a :: b :: T) ++ R)) sc
+  = [a; b] ++ T ++ R ++ end_blk a (last (T ++ R) b) sc.
+Proof.
+  intros a b T R sc HT. cbn [app pfirst hd]. rewrite <- app_assoc. do 2 f_equal. f_equal. f_equal. f_equal.
+  apply plast_started. intros E. apply app_eq_nil in E. destruct E; congruence.
+Qed.
+
+Lemma end_run : forall c p, p <> [] ->
+  (lp_end c ;;; ret tt) (st_of p 1) = (Ret tt, st_of (p ++ end_blk (pfirst p) (plast p) (mk_speed_closed c)) 1).
+Proof. intros c [|x p] H; [congruence|reflexivity]. Qed.
+
+Definition disp (a b d : Q) (vs : list p3) : list p3 := map (fun v : p3 => let '(x, y, z) := v in (x + a, y + b, z + d)) vs.
+Lemma add_rows_disp : forall vs a b d, np_add_rows (map row_of vs) [a; b; d] = map row_of (disp a b d vs).
+Proof. intros vs a b d. unfold np_add_rows, disp. rewrite !map_map. apply map_ext. intros [[x y] z]. reflexivity. Qed.
+
+(* the vertices in order, then four displaced copies (each entered by a closed move), end(): the figure of the model built from the
+   displaced vertex lists as numpy computes them (v + [0, 0, 0] first) *)
+Theorem SRC_C14_ablation_shifted : forall c v0 vs s,
+  src_ablation c (map row_of (v0 :: vs)) (Some s) mk_s0 =
+  done (ablation_gen (mcfg_of c) (disp 0 0 0 (v0 :: vs))
+          [disp s 0 0 (v0 :: vs); disp (- s) 0 0 (v0 :: vs); disp 0 s 0 (v0 :: vs); disp 0 (- s) 0 (v0 :: vs)]) 1.
+Proof.
+  intros c v0 vs s. unfold src_ablation. cbn [truthy truthy_list negb map]. cbv zeta.
+  change (row_of v0 :: map row_of vs) with (map row_of (v0 :: vs)).
+  unfold to_float, tofloat_Q, pyneg, neg_Q. rewrite !add_rows_disp.
+  set (D0 := disp 0 0 0 (v0 :: vs)). set (D1 := disp s 0 0 (v0 :: vs)). set (D2 := disp (- s) 0 0 (v0 :: vs)).
+  set (D3 := disp 0 s 0 (v0 :: vs)). set (D4 := disp 0 (- s) 0 (v0 :: vs)).
+  assert (E0 : exists w0 ws, D0 = w0 :: ws) by (unfold D0; destruct v0 as [[x y] z]; cbn [disp map]; eauto).
+  destruct E0 as [w0 [ws E0]]. rewrite E0.
+  assert (HF : Forall (fun l : list p3 => l <> []) [D1; D2; D3; D4])
+    by (unfold D1, D2, D3, D4; destruct v0 as [[x y] z]; repeat constructor; cbn [disp map]; discriminate).
+  clearbody D1 D2 D3 D4. clear E0 D0.
+  cbn [map]. unfold bind at 1. cbn [ret]. unfold bind at 1.
+  destruct w0 as [[x0 y0] z0]. cbn [row_of lp_start mk_s0 mk_path set_path mk_sign].
+  change ([x0; y0; z0] :: map row_of ws) with (map row_of ((x0, y0, z0) :: ws)).
+  change (set_path (start_blk (x0, y0, z0) (mk_speed_pos c)) mk_s0) with (st_of (start_blk (x0, y0, z0) (mk_speed_pos c)) 1).
+  unfold bind at 1. rewrite for_each_map.
+  rewrite (for_each_blocks _ _ (fun v last => [lin last (abs3 v) true true (m_speed (mcfg_of c))]));
+    [| discriminate | intros a E; apply (f_equal (fun f => f dpt)) in E; discriminate | intros a q Hq; apply visit_body; exact Hq].
+  rewrite visit_fold by discriminate.
+  set (V := visit (mcfg_of c) _ _).
+  assert (HV : start_blk (x0, y0, z0) (mk_speed_pos c) ++ V <> []) by discriminate.
+  assert (HVne : V <> []) by (unfold V; cbn [visit]; discriminate).
+  change [x0; y0; z0] with (row_of (x0, y0, z0)). rewrite last_map_row. set (vl := last ws (x0, y0, z0)).
+  assert (Ev : forall sh q, q <> [] -> lp_linear c (as_optlist (row_of vl)) "ABS" sh None (st_of q 1)
+                 = (Ret tt, st_of (q ++ [lin (plast q) (abs3 vl) true (negb (Z.eqb sh 0)) (m_speed (mcfg_of c))]) 1)).
+  { intros sh q Hq. destruct vl as [[a b] d]. cbn [row_of as_optlist aol_val map]. now rewrite (linear_ok c q 1 _ _ _ "ABS" true sh None Hq eq_refl). }
+  assert (N1 : forall (l : list lpt) x, l ++ [x] <> []) by (intros l x E; apply app_eq_nil in E; destruct E; discriminate).
+  unfold bind at 1. cbn [ret]. unfold bind at 1. rewrite (Ev 1%Z _ HV).
+  unfold bind at 1. cbn [ret]. unfold bind at 1. rewrite (Ev 0%Z _ (N1 _ _)).
+  (* the first trace, in the model's form *)
+  cbn [start_blk app].
+  set (a := mk (x0, y0, z0) (mk_speed_pos c) false). set (b := mk (x0, y0, z0) (mk_speed_pos c) true).
+  rewrite (trace_shape a b V (fun l => lin l (abs3 vl) true (negb (1 =? 0)%Z) (m_speed (mcfg_of c)))
+                             (fun l => lin l (abs3 vl) true (negb (0 =? 0)%Z) (m_speed (mcfg_of c))) HVne).
+  set (T := V ++ _).
+  assert (HT : T <> []) by (unfold T; intros E; apply app_eq_nil in E; destruct E; congruence).
+  (* the displaced copies *)
+  change [map row_of D1; map row_of D2; map row_of D3; map row_of D4] with (map (map row_of) [D1; D2; D3; D4]).
+  unfold bind at 1. rewrite for_each_map.
+  rewrite (for_each_blocks_P (fun l : list p3 => l <> []) [D1; D2; D3; D4] _ (fun vs0 last => copy_blk (mcfg_of c) last vs0));
+    [| discriminate | exact HF | intros [|u us] q Hne Hq; [congruence|exact (copy_body c u us q Hq)]].
+  rewrite copies_fold by (discriminate || exact HF).
+  set (C := copies (mcfg_of c) (plast (a :: b :: T)) [D1; D2; D3; D4]).
+  rewrite (end_run c ((a :: b :: T) ++ C)) by discriminate.
+  unfold done, st_of. f_equal. f_equal.
+  rewrite (gen_shape a b T C (mk_speed_closed c) HT).
+  unfold ablation_gen. cbv zeta.
+  change (mk (x0, y0, z0) (m_speed_pos (mcfg_of c)) false) with a. change (mk (x0, y0, z0) (m_speed_pos (mcfg_of c)) true) with b.
+  assert (ET : trace (mcfg_of c) b ((x0, y0, z0) :: ws) (x0, y0, z0) = T).
+  { unfold trace, T. rewrite last_cons_same. reflexivity. }
+  assert (EP : plast (a :: b :: T) = last T b) by (apply plast_started; exact HT).
+  unfold C. rewrite EP. rewrite <- ET. reflexivity.
+Qed.
+Print Assumptions SRC_C14_ablation_shifted.
+
+(* the displaced vertices are the model's shift3 copies, as rational numbers (the model leaves z alone, numpy adds 0) *)
+Theorem SRC_C14_displaced : forall vs dx dy,
+  Forall2 (fun a b : p3 => let '(x, y, z) := a in let '(x', y', z') := b in x == x' /\ y == y' /\ z == z') (disp dx dy 0 vs) (map (shift3 dx dy) vs).
+Proof. intros vs dx dy. induction vs as [|[[x y] z] vs IH]; cbn [disp map]; constructor; [cbn; repeat split; ring|exact IH]. Qed.
+Print Assumptions SRC_C14_displaced.
+
 (* ---------------- box: the ablation line through the corners of the rectangle ---------------- *)
 Theorem SRC_C14_box : forall c x y z w h,
   src_box c [x; y; z] w h mk_s0 =
